@@ -691,7 +691,7 @@ func proposerUnblinding(c *harness.Ctx, rounds int) {
 		c.Case(id, func() {
 			baseline := census() // goroutines leaked by earlier cases were reported there
 			var wg sync.WaitGroup
-			var notReturned atomic.Int64
+			var notReturned, submitted atomic.Int64
 			for k := 0; k < rounds; k++ {
 				w := &pworld{acct: harness.NewAcct(harness.KindPlain, "W", "proposer", 1360+k%4, phase0.ValidatorIndex(4000+k), nil)}
 				specP := harness.NewSpec(pspe, nil)
@@ -733,6 +733,11 @@ func proposerUnblinding(c *harness.Ctx, rounds int) {
 					defer wg.Done()
 					svc.Propose(bg, duty)
 					notReturned.Add(-1)
+					w.mu.Lock()
+					if w.submitted == 1 {
+						submitted.Add(1)
+					}
+					w.mu.Unlock()
 				}()
 			}
 			done := make(chan struct{})
@@ -744,6 +749,9 @@ func proposerUnblinding(c *harness.Ctx, rounds int) {
 				return
 			}
 			c.Eval(rounds)
+			if want := strings.Contains(strings.Join(sh.kinds, ","), "block"); (submitted.Load() == int64(rounds)) != want && (submitted.Load() == 0) == want {
+				c.Inconclusive(fmt.Sprintf("%s: %d of %d proposals were submitted, the scenario did not play out", id, submitted.Load(), rounds))
+			}
 			if left := quiesce(baseline, 8*time.Second); len(left) > 0 {
 				c.Violate("goroutine-leak:proposer-unblinding", fmt.Sprintf("after %d proposals unblinded with relays %v (%s), %d goroutine(s) are still inside the proposer long after every relay has answered, e.g. %s", rounds, sh.kinds, sh.name, len(left), strip(left[0])), id,
 					map[string]any{"goroutines": first(left, 5)})
@@ -759,7 +767,7 @@ func relayUnblinding(c *harness.Ctx, rounds int) {
 		id := "goroutines/blockrelay-unblinding/" + sh.name
 		c.Case(id, func() {
 			baseline := census() // goroutines leaked by earlier cases were reported there
-			env, err := relaycommon.NewEnv(nil, 0, relaycommon.Outcome{Kind: "error"}, nil)
+			env, err := relaycommon.NewEnv([]harness.Acct{harness.NewAcct(harness.KindPlain, "W", "ru", 1350, 9200, nil)}, 0, relaycommon.Outcome{Kind: "error"}, nil)
 			if err != nil {
 				c.Inconclusive(err.Error())
 				return
@@ -796,7 +804,10 @@ func relayUnblinding(c *harness.Ctx, rounds int) {
 				fin := make(chan struct{})
 				go func() { // the REST handler's goroutine; the request context of a waiting beacon node
 					defer wg.Done()
-					_, _ = env.Svc.UnblindBlock(bg, blk)
+					res, err := env.Svc.UnblindBlock(bg, blk)
+					if (res != nil && err == nil) != strings.Contains(strings.Join(sh.kinds, ","), "block") {
+						c.Inconclusive(fmt.Sprintf("%s: unblinding request ended with block=%v err=%v, the scenario did not play out", id, res != nil, err))
+					}
 					notReturned.Add(-1)
 					close(fin)
 				}()
